@@ -122,3 +122,29 @@ claim("C02",
   "Trusted: go/types, go/ssa; the extraction idioms and exception table in checker/slots.go and checker/rules_c01_c02.go. Not covered: value-level round trip, nesting depth, conditions under which an optional clause is printed (e.g. > 0 tests).",
   "static analysis: parser/printer slot agreement (coverage, class, keyword, order) over the type-checked AST + dynamic-type set of unary operands",
   "DESIGN.md 4/C02, 3/E4")
+
+# Rules added after the first build (seed rounds 2-3 and the neutral-refactoring
+# rounds); appended to the claim text of each property.
+ADDED = {
+ "C01": "Also: the escapes accepted inside either quote; decimal/64-bit integer and duration literal conversion with an exact overflow test; CR/CRLF look-ahead pushed back; no parse result aliases parser-owned storage.",
+ "C02": "Also: no clause printed only under an independently parsed clause; optional pointer-valued clauses printed whenever set; interface-valued slots keep their numeric kind; BinaryExpr and ParenExpr print as their operands/inner text in fixed form; NumberLiteral formatted shortest-exact with no integer detour.",
+ "C03": "Also: ParenExpr.String and BinaryExpr.String return only the fixed forms; no bare BinaryExpr is stored as an operand outside the precedence insertion; the comparand of the insertion test is the new operator's own precedence.",
+ "C04": "Also: comment skippers end at end of input (automata); no nil test on a freshly boxed pointer; bound values are never the nil interface.",
+ "C05": "Also: comment openers fully consumed before the body; column arithmetic is 0 / +1 only; the identifier scanner is entered exactly for runes it accepts.",
+ "C06": "Also: no vacuous `index == len` test in the quoting helpers; escape tables compared per quote kind.",
+ "C07": "Also: bound values reach their kind verbatim; multi-entry objects rejected before the pick loop; SetParams replaces the map; bound values never nil.",
+ "C08": "Also: decimal 64-bit digits (or a hand-written accumulation whose only guard is a sign test is rejected); exact `>` overflow comparison; no package state; no floating-point divisibility in the ladder.",
+ "C09": "Also: operands promoted upwards only; no struct equality on instants; re-dispatch keeps left/right; no int64 quotient; copy literals complete.",
+ "C10": "Also: the extracted range is returned unmodified; no mutable package state on the way; no integer-to-float detour for integer bounds.",
+ "C11": "Also: no loop over sub-expressions is left by break.",
+ "C12": "Also: the per-call type filter is recreated per iteration; constant types assigned to the merged type only under `== Unknown`; the filter is selected by the call that holds the wildcard.",
+ "C13": "Also: ranging over a slice the body reassigns gives no index fact; pointers returned with an untested error are not used.",
+ "C15": "Also: every return of Sanitize is behind both patterns; the lexer's whitespace class is within the patterns' \\s; the escape branch of the password literal is reachable.",
+ "C16": "Also: no raw scan right after an explicit whitespace token; the regex gap test equals the lexer's whitespace class; multi-site comment automata; no parse result aliases parser-owned storage.",
+ "C18": "Also: the set of condition texts SetTimeRange can build is exactly {window, (prev) AND window}; the generic rewriters store every child back; reducer copy literals are complete; a short-cut returns the operand itself, not a part of it.",
+ "C19": "Also: no mutable package state in RequiredPrivileges; EXPLAIN delegation decided on SSA.",
+ "C20": "Also: created columns carry no alias; the time-column slot is reserved under the same condition under which it is filled; appending into a shortened slice of the statement's fields counts as a write.",
+}
+for _p, _t in ADDED.items():
+    if _p in CLAIMS:
+        CLAIMS[_p]["text"] += " " + _t
